@@ -308,11 +308,11 @@ def run(rep, db, tier, seed):
         T = Types(db)
     except (Unmodelled, KeyError) as u:
         rep.add(Obligation('scope types', 'inconclusive', str(u)[:500])); return
-    for fn in (check_set_err, check_guards, check_task, check_scope_run, check_spawn_kind):
+    for fn in (check_set_err, check_guards, check_task, check_scope_run, check_spawn_kind, lambda r, d, t: check_schedules(r, d, t, tier)):
         try:
             fn(rep, db, T)
         except (Unmodelled, KeyError, BoundExceeded) as u:
-            rep.add(Obligation(fn.__name__, 'inconclusive', f'{type(u).__name__}: {u}'[:700]))
+            rep.add(Obligation(getattr(fn, '__name__', 'check'), 'inconclusive', f'{type(u).__name__}: {u}'[:700]))
     rep.extra['explanation'] = 'PARTIAL: sequential local obligations of the scope implementation on the real MIR (error recording, guards, task wrapper, scope epilogue); thread schedules are NOT explored'
 
 
@@ -512,3 +512,220 @@ def pp_callee(db, rec, call):
         return pp.op(db, rec['crate'], call['func'], rec.get('consts') or {}).replace('fn ', '', 1)
     except Exception:
         return None
+
+
+# ------------------------------------------------------------------------------------------------ cooperative schedules
+class Rc:
+    """shared part of an Arc of one of the scope's guard / state types: strong count + the value"""
+    def __init__(self, value, tname): self.cell = Cell(value); self.strong = 1; self.tname = tname
+
+
+class ArcV(BoxV):
+    """one handle of a reference-counted Arc (BoxV so that deref / field access work as for transparent Arcs)"""
+    def __init__(self, rc): self.rc = rc; self.cell = rc.cell
+    def py_clone(self, ex): self.rc.strong += 1; return ArcV(self.rc)
+    def __repr__(self): return f'Arc#{self.rc.strong}<{self.rc.tname}>'
+
+
+class WeakRc:
+    def __init__(self, rc): self.rc = rc
+    def py_clone(self, ex): return WeakRc(self.rc)
+
+
+GUARDED = r'zksync_concurrency::scope::state::(CancelGuard|TerminateGuard|State)<'
+
+
+def install_refcount(ex, db, st):
+    """Arc / Weak of the scope's guard and state types with real reference counting: the Drop impl of the pointee runs (through
+    its real drop glue) exactly when the last handle is dropped. Every other Arc stays transparent."""
+    n_before = len(ex.user_models)
+    def tname(n):
+        m = re.search(r'Arc::?<(.*)>::new$', n) or re.search(r'Arc<(.*)>', n)
+        return m.group(1) if m else n
+    def arc_new(e, n, a):
+        if not re.search(GUARDED, n): return NotImplemented
+        return ArcV(Rc(a[0], tname(n)))
+    ex.model(r'std::sync::Arc::<.*>::new', arc_new)
+    def handle(v):
+        while isinstance(v, Ref): v = v.get()
+        return v
+    def arc_clone(e, n, a):
+        h = handle(a[0])
+        if not isinstance(h, ArcV): return NotImplemented
+        h.rc.strong += 1; return ArcV(h.rc)
+    ex.model(r'<std::sync::Arc<.*> as std::clone::Clone>::clone', arc_clone)
+    def arc_downgrade(e, n, a):
+        h = handle(a[0])
+        return WeakRc(h.rc) if isinstance(h, ArcV) else NotImplemented
+    ex.model(r'std::sync::Arc::<.*>::downgrade', arc_downgrade)
+    ex.model(r'std::sync::Weak::<.*>::new', lambda e, n, a: WeakRc(None) if re.search(GUARDED, n) else NotImplemented)
+    def weak_upgrade(e, n, a):
+        w = handle(a[0])
+        if not isinstance(w, WeakRc): return NotImplemented
+        if w.rc is None or w.rc.strong == 0: return none()
+        w.rc.strong += 1; return some(ArcV(w.rc))
+    ex.model(r'std::sync::Weak::<.*>::upgrade', weak_upgrade)
+
+    def release(e, h):
+        if h.rc.strong <= 0: raise Unmodelled(f'Arc<{h.rc.tname}> dropped more often than cloned (engine error)')
+        h.rc.strong -= 1
+        st()['log'].append(('arc-drop', h.rc.tname.split('<')[0].split('::')[-1], h.rc.strong))
+        if h.rc.strong == 0:
+            ks = [k for k in db.find(r'std::ptr::drop_in_place::<' + re.escape(h.rc.tname) + r'>', kinds=('inst', 'fn')) if db.by_key[k][0] == CONC]
+            if 'scope::state::State<' in h.rc.tname and not ks: return       # no Drop impl, fields hold no guards
+            if not ks: raise Unmodelled(f'no drop glue for {h.rc.tname} in the dump')
+            e.call_key(ks[0], [Ref(h.rc.cell)])
+    def arc_drop(e, n, a):
+        h = handle(a[0])
+        if not isinstance(h, ArcV): return NotImplemented if not re.search(GUARDED, n) else UNIT
+        release(e, h); return UNIT
+    ex.model(r'<std::sync::Arc<.*> as std::ops::Drop>::drop', arc_drop)
+    ex.model(r'std::mem::drop::<std::sync::Arc<.*>>', arc_drop)
+    ex.model(r'<std::sync::Weak<.*> as std::ops::Drop>::drop', lambda e, n, a: UNIT)
+    mine = ex.user_models[n_before:]; del ex.user_models[n_before:]; ex.user_models[0:0] = mine; ex._um_cache = {}
+    ex.drop_types = [r'std::sync::Arc<' + GUARDED, r'scope::task::Task<', r'scope::task::PanicReporter<', r'std::option::Option<zksync_concurrency::scope::task::Task<']
+
+
+class TaskRec:
+    def __init__(self, tid, cell): self.tid = tid; self.cell = cell; self.done = False; self.result = None
+
+
+def check_schedules(rep, db, T, tier='quick'):
+    name = 'Scope::run with spawned main / background tasks under every cooperative schedule (await granularity), real guards with reference counting'
+    t0 = time.time()
+    ex = Exec(db, loop_bound=12); cur = [None]; install(ex, lambda: cur[0]); install_refcount(ex, db, lambda: cur[0])
+    n_before = len(ex.user_models)
+    keys = [k for k in db.find(Z + r"Scope::<'_, " + E + r">::run::<.*>", kinds=('inst',)) if db.by_key[k][0] == CONC and not db.by_key[k][4].endswith('{closure#0}')]
+    if not keys: raise Unmodelled('no Scope::run instance')
+    key = sorted(keys, key=lambda k: (len(db.by_key[k][4]), db.by_key[k][4]))[0]
+    co_key = [k for k in db.find(re.escape(db.by_key[key][4]) + r'::\{closure#0\}', kinds=('inst',)) if db.by_key[k][0] == CONC]
+    rec = db.body(co_key[0]); root_clo = None
+    for bb in rec['body']['blocks']:
+        t = bb['terminator']['kind']
+        if isinstance(t, dict) and 'Call' in t:
+            nm = pp_callee(db, rec, t['Call'])
+            if nm and '{closure' in nm and not nm.startswith('zksync_concurrency') and not nm.startswith('std::') and not nm.startswith('<'):
+                root_clo = nm; break
+    if root_clo is None: raise Unmodelled('root closure call not found in Scope::run')
+    def inst_of(meth):
+        ks = [k for k in db.find(Z + r"Scope::<'_, " + E + r">::" + meth + r"::<.*>", kinds=('inst',)) if db.by_key[k][0] == CONC and '{closure' not in db.by_key[k][4]]
+        if not ks: raise Unmodelled(f'no instance of Scope::{meth}')
+        return sorted(ks, key=lambda k: (len(db.by_key[k][4]), db.by_key[k][4]))[0]
+    k_spawn = inst_of('spawn'); k_spawn_bg = inst_of('spawn_bg')
+
+    class Ctx2(CtxV):
+        def __init__(self, name): super().__init__(name); self.cancelled = False
+    def ctx_cancel(e, n, a):
+        c = deref_all(a[0]); c.cancelled = True; cur[0]['log'].append(('cancel', c.name)); return UNIT
+    ex.model(r'zksync_concurrency::ctx::Ctx::cancel', ctx_cancel)
+
+    def tokio_spawn(e, n, a):
+        s = cur[0]; tid = s['next_tid']
+        tr = TaskRec(tid, Cell(a[0])); s['tasks'].append(tr)
+        def respond(e2):
+            if tr.done: return ready(tr.result)
+            return pending()
+        return EnvFuture(f'JoinHandle({tid})', respond)
+    ex.model(r'tokio::task::spawn::<.*>|tokio::spawn::<.*>|tokio::task::spawn::spawn::<.*>', tokio_spawn)
+    ex.model(r'std::boxed::Box::<.*>::pin', lambda e, n, a: coro.pin(BoxV(a[0])))
+    ex.model(r'std::mem::transmute::<.*>', lambda e, n, a: a[0])
+    ex.model(re.escape(root_clo), lambda e, n, a: cur[0]['mk_body'](0, a[-1]))
+    mine = ex.user_models[n_before:]; del ex.user_models[n_before:]; ex.user_models[0:0] = mine; ex._um_cache = {}
+    with_c = tier != 'quick'
+    viol = {}; n = 0
+
+    def body(ex):
+        ctx = Ctx2('scope')
+        s = dict(log=[], tasks=[], next_tid=0, started=[], finished=[], fail_order=[], spawned={0: 'main'}, inv=[]); cur[0] = s
+        # task tree: root(0) spawns A(1, main) and B(2, background); A spawns C(3, main) in the thorough tier
+        spec = {0: dict(beh=pick(ex, 'root_behaviour', ('immediate', 'yield')), out=pick(ex, 'root_outcome', ('ok', 'err')), children=[])}
+        if pick(ex, 'has_main_child', (True, False)):
+            spec[1] = dict(beh=pick(ex, 'a_behaviour', ('immediate', 'yield')), out=pick(ex, 'a_outcome', ('ok', 'err')), children=[], kind='main'); spec[0]['children'].append(1)
+            if with_c and pick(ex, 'has_grandchild', (True, False)):
+                spec[3] = dict(beh=pick(ex, 'c_behaviour', ('immediate', 'yield')), out=pick(ex, 'c_outcome', ('ok', 'err')), children=[], kind='main'); spec[1]['children'].append(3)
+        if pick(ex, 'has_background_child', (True, False)):
+            spec[2] = dict(beh=pick(ex, 'b_behaviour', ('immediate', 'yield', 'wait_cancel')), out=pick(ex, 'b_outcome', ('ok', 'err')), children=[], kind='bg'); spec[0]['children'].append(2)
+        s['spec'] = spec
+        stages = {}
+
+        def mk_body(tid, scope_ref):
+            stages[tid] = 0
+            def respond(e2):
+                sp = spec[tid]
+                if stages[tid] == 0:
+                    stages[tid] = 1; s['started'].append(tid)
+                    for ch in sp['children']:
+                        s['next_tid'] = ch; s['spawned'][ch] = spec[ch]['kind']
+                        e2.call_key(k_spawn if spec[ch]['kind'] == 'main' else k_spawn_bg, [scope_ref, mk_body(ch, scope_ref)])
+                    if sp['beh'] == 'yield': return pending()
+                if sp['beh'] == 'wait_cancel' and not ctx.cancelled: return pending()
+                stages[tid] = 2; s['finished'].append(tid)
+                if sp['out'] == 'err':
+                    s['fail_order'].append(tid); return ready(err(Opaque(('error', tid))))
+                return ready(ok(Opaque(('value', tid))))
+            return EnvFuture(f'body({tid})', respond)
+        s['mk_body'] = mk_body
+        blocked = lambda tid: spec[tid]['beh'] == 'wait_cancel' and stages.get(tid, 0) == 1 and not ctx.cancelled
+
+        sc_t = T.mk.ty(Z + r'Scope', r'.*' + E + r'.*')
+        fs = sc_t['info']['variants'][0]['fields']
+        vals = dict(ctx=ctx, cancel_guard=WeakRc(None), terminate_guard=WeakRc(None), _env=Opaque('phantom'))
+        if set(f['name'] for f in fs) != set(vals): raise Unmodelled(f'Scope fields changed: {[f["name"] for f in fs]}')
+        sc_cell = Cell(Agg('adt', sc_t, 0, [vals[f['name']] for f in fs]))
+        s['next_tid'] = 0
+
+        def once_of():
+            w = fld(sc_cell.v, 'terminate_guard')
+            if not isinstance(w, WeakRc) or w.rc is None: return None
+            tg = w.rc.cell.v
+            stt = deref_all(tg.fields[0]) if isinstance(tg, Agg) else None
+            return fld(stt, 'terminated') if stt is not None else None
+        def invariants(where):
+            o = once_of()
+            unfinished = [t for t in s['spawned'] if t not in s['finished']]
+            if s['fail_order'] and not ctx.cancelled: s['inv'].append(('no-cancel-on-failure', where))
+            mains = [t for t, k in s['spawned'].items() if k == 'main']
+            if all(t in s['finished'] for t in mains) and not ctx.cancelled: s['inv'].append(('no-cancel-after-mains', where))
+            if o is not None and o.sent and unfinished: s['inv'].append(('terminated-early', where, tuple(unfinished)))
+        co = ex.call_key(key, [Ref(sc_cell), Opaque('root closure')])
+        run_cell = Cell(co); result = None; status = 'pending'
+        try:
+            for step in range(40):
+                r = coro.poll_value(ex, Ref(run_cell))
+                invariants(f'after polling the scope (step {step})')
+                if r.variant == 0: result = r.fields[0]; status = 'ready'; break
+                live = [t for t in s['tasks'] if not t.done and not blocked(t.tid)]
+                if not live: status = 'stuck'; break
+                t = live[ex.choose(len(live), 'schedule')]
+                r2 = coro.poll_value(ex, Ref(t.cell))
+                if r2.variant == 0:
+                    t.done = True; t.result = ok(r2.fields[0])
+                invariants(f'after polling task {t.tid} (step {step})')
+        except Panic as p:
+            where = str(p.where or (ex.callstack[-1] if ex.callstack else ''))
+            status = 'panic'; result = f'{p.msg} at {where}'
+        unfinished = [t for t in s['spawned'] if t not in s['finished']]
+        return status, result, list(s['fail_order']), unfinished, list(s['inv']), {k: (v['beh'], v['out']) for k, v in spec.items()}
+    for kind, val, pc, _ in run_paths(ex, body, budget=1500):
+        n += 1
+        if kind == 'panic': viol.setdefault('sched:' + panic_key(val), f'harness panic outside the scope: {val[0]} at {val[1]}'); continue
+        status, result, fail_order, unfinished, inv, spec = val; rep.nontrivial += 1
+        case = f'tasks {spec}'
+        for i in inv:
+            text = {'no-cancel-on-failure': 'a task failed and the scope\'s context is not cancelled at once', 'no-cancel-after-mains': 'all main tasks completed and the scope\'s context is not cancelled',
+                    'terminated-early': 'the terminated signal is sent while spawned tasks are still running'}[i[0]]
+            viol.setdefault('sched:' + i[0], f'{text} ({i[1]}; {case})')
+        if status == 'stuck': viol.setdefault('sched:stuck', f'the scope never returns although no task can run any more (a task waits for a cancellation / termination that is never delivered) ({case})'); continue
+        if status == 'pending': viol.setdefault('sched:step-bound', f'step bound reached ({case})'); continue
+        if status == 'panic': viol.setdefault('sched:panic', f'Scope::run panics although no task panicked: {result} ({case})'); continue
+        if unfinished: viol.setdefault('sched:returns-early', f'scope::run! returns while tasks {unfinished} have not finished ({case})')
+        if not fail_order:
+            if not (result.variant == 0 and isinstance(result.fields[0], Opaque) and result.fields[0].tag == ('value', 0)):
+                viol.setdefault('sched:wrong-ok', f'all tasks succeeded but the scope does not return the root task\'s value ({case})')
+        else:
+            got = result.fields[0].tag if (result.variant == 1 and isinstance(result.fields[0], Opaque)) else None
+            if got != ('error', fail_order[0]):
+                viol.setdefault('sched:wrong-error', f'the scope returns {"Ok" if result.variant == 0 else got} but the first task to fail was task {fail_order[0]} (failures in order {fail_order}) ({case})')
+    rep.absorb_stats(ex.stats)
+    for k, text in viol.items(): rep.violation(Violation(PROP, k, text, None, None, 'Scope::run with tasks under cooperative schedules'))
+    rep.add(Obligation(name, 'violated' if viol else 'discharged', paths=n, wall_s=round(time.time() - t0, 1)))
